@@ -1165,3 +1165,130 @@ Proof. intros H. split; [exact (single_mentions _ v) | exact (single_sibling pre
 
 Lemma unknown_key_anywhere w t : names_nonfield w t = true -> exists e, set_default_tree_gen w t = Err e.
 Proof. intros H. apply has_unknown_err. now rewrite hu_is_spec. Qed.
+
+(* ---------- the model against the executable spec that also judges the implementation ---------- *)
+Lemma val_eqb_refl v : val_eqb v v = true.
+Proof. destruct v; simpl; [apply Z.eqb_refl | apply String.eqb_refl]. Qed.
+
+Lemma pt_eqb_refl t : pt_eqb t t = true.
+Proof.
+  induction t as [| v | m IH] using ptree_ind2; [reflexivity | apply val_eqb_refl |].
+  cbn [pt_eqb]. induction m as [|[k c] r IHr]; [reflexivity|].
+  inversion IH as [|? ? Hc Hr]; subst. cbn [snd] in Hc. rewrite String.eqb_refl, Hc. cbn [andb]. apply IHr. exact Hr.
+Qed.
+
+(* fresh wrappers (no instance yet, _default None) of dataclasses whose field names are distinct *)
+Fixpoint wf (w : wtree) {struct w} : bool :=
+  match w with
+  | WLeaf _ _ None PNull => true
+  | WLeaf _ _ _ _ => false
+  | WClass fs =>
+      str_nodupb (keys fs)
+      && (fix go (fs : list (string * wtree)) : bool :=
+            match fs with [] => true | (_, c) :: r => wf c && go r end) fs
+  end.
+
+Definition wf_forest (ws : list (string * wtree)) : bool :=
+  str_nodupb (keys ws) && forallb (fun dw => wf (snd dw)) ws.
+
+Lemma wf_class fs : wf (WClass fs) = str_nodupb (keys fs) && forallb (fun kc => wf (snd kc)) fs.
+Proof. cbn [wf]. f_equal. induction fs as [|[k c] r IH]; [reflexivity|]. cbn [forallb snd]. now rewrite IH. Qed.
+
+Lemma leaf_paths_class fs :
+  leaf_paths (WClass fs) = flat_map (fun kc => map (fun qd => (fst kc :: fst qd, snd qd)) (leaf_paths (snd kc))) fs.
+Proof. cbn [leaf_paths]. induction fs as [|[k c] r IH]; [reflexivity|]. cbn [flat_map fst snd]. now rewrite IH. Qed.
+
+Lemma lookup_nodup {A} (fs : list (string * A)) k c :
+  str_nodupb (keys fs) = true -> In (k, c) fs -> lookup k fs = Some c.
+Proof.
+  induction fs as [|[k0 c0] r IH]; intros Hn Hin; [destruct Hin|].
+  cbn [keys map fst str_nodupb] in Hn. apply andb_true_iff in Hn as [Hk Hr]. apply negb_true_iff in Hk.
+  cbn [lookup]. destruct Hin as [E | Hin].
+  - injection E as -> ->. now rewrite String.eqb_refl.
+  - destruct (String.eqb k k0) eqn:E; [|now apply IH].
+    apply String.eqb_eq in E. subst k0. exfalso.
+    apply str_in_false in Hk. apply Hk. change (In k (map fst r)). apply in_map_iff. now exists (k, c).
+Qed.
+
+Lemma leaf_paths_leaf_at w : forall q d,
+  wf w = true -> In (q, d) (leaf_paths w) -> exists o, leaf_at q w = Some (o, d, None, PNull).
+Proof.
+  induction w as [o0 d0 i0 c0 | fs IH] using wtree_ind2; intros q d Hw Hin.
+  - cbn [leaf_paths] in Hin. destruct Hin as [E | []]. injection E as <- <-.
+    cbn [wf] in Hw. destruct i0; [discriminate|]. destruct c0; try discriminate. now exists o0.
+  - rewrite wf_class in Hw. apply andb_true_iff in Hw as [Hn Hc]. rewrite leaf_paths_class in Hin.
+    apply in_flat_map in Hin as [[k c] [Hkc Hin]]. apply in_map_iff in Hin as [[q' d'] [E Hin]].
+    cbn [fst snd] in E. injection E as <- <-.
+    rewrite forallb_forall in Hc. specialize (Hc _ Hkc). rewrite Forall_forall in IH.
+    destruct (IH _ Hkc q' d' Hc Hin) as [o Ho]. exists o. cbn [leaf_at].
+    now rewrite (lookup_nodup fs k c Hn Hkc).
+Qed.
+
+Lemma forest_leaf_paths_leaf_at ws q d :
+  wf_forest ws = true -> In (q, d) (forest_leaf_paths ws) -> exists o, fleaf_at q ws = Some (o, d, None, PNull).
+Proof.
+  unfold wf_forest, forest_leaf_paths. intros Hw Hin. apply andb_true_iff in Hw as [Hn Hc].
+  apply in_flat_map in Hin as [[dd w] [Hdw Hin]]. apply in_map_iff in Hin as [[q' d'] [E Hin]].
+  cbn [fst snd] in E. injection E as <- <-. rewrite forallb_forall in Hc. specialize (Hc _ Hdw).
+  destruct (leaf_paths_leaf_at w q' d' Hc Hin) as [o Ho]. exists o. cbn [fleaf_at].
+  now rewrite (lookup_nodup ws dd w Hn Hdw).
+Qed.
+
+Lemma fold_kwargs_unknown l : forall st kw,
+  In kw l -> forest_has_unknown (ps_ws st) kw = true -> exists e, fold_res set_defaults_kwargs_gen st l = Err e.
+Proof.
+  induction l as [|g r IH]; intros st kw Hin H; [destruct Hin|]. cbn [fold_res].
+  destruct Hin as [-> | Hin].
+  - rewrite sdk_unfold. destruct kw as [| v | m]; try discriminate.
+    destruct (sdw_unknown _ _ H) as [e ->]. now exists e.
+  - destruct (set_defaults_kwargs_gen st g) as [st1|e] eqn:E; [|now exists e].
+    apply (IH st1 kw Hin). now rewrite (hu_equiv_forest _ _ _ (sdk_hu _ _ _ E)).
+Qed.
+
+Theorem unknown_key_sdefs nm ws inst sdefs acp_arg ctor cg clif cli kw :
+  In kw sdefs -> forest_names_nonfield ws kw = true ->
+  exists e, run_gen nm ws inst sdefs acp_arg ctor cg clif cli = Err e.
+Proof.
+  intros Hin H. rewrite <- forest_hu_is_spec in H. rewrite run_unfold.
+  destruct (fold_kwargs_unknown sdefs (mk_pstate (ws_init ws inst) (PMap [])) kw Hin) as [e ->]; [|now exists e].
+  cbn [ps_ws]. now rewrite (hu_equiv_forest _ _ _ (ws_init_hu ws inst)).
+Qed.
+
+(* whatever the model returns on well-formed, null-free input satisfies the verdict of Model/LayersSpec.v *)
+Theorem model_meets_spec nm ws inst sdefs acp_arg ctor cg clif cli r :
+  run_gen nm ws inst sdefs acp_arg ctor cg clif cli = Ok r ->
+  forallb is_map (ctor ++ clif) = true ->
+  wf_forest ws = true ->
+  forallb (fun qd => nonnull_at nm ws (fst qd) sdefs (ctor ++ clif)) (forest_leaf_paths ws) = true ->
+  (cg = true -> acp_of acp_arg ctor = true) ->
+  verdict_allows (spec_verdict ws inst sdefs (map (rooted_gen nm ws) ctor)
+                               (map (rooted_gen nm ws) (if cg then clif else [])) cli) (Ok r) = true.
+Proof.
+  intros H Hm Hw Hn Hcg.
+  assert (Hmc : forallb is_map ctor = true /\ forallb is_map clif = true).
+  { rewrite forallb_app in Hm. now apply andb_true_iff in Hm. }
+  destruct Hmc as [Hmc Hmf].
+  unfold spec_verdict.
+  destruct (existsb (forest_names_nonfield ws) _) eqn:Eu.
+  - (* impossible: the run would have failed *)
+    exfalso. apply existsb_exists in Eu as [doc [Hin Hd]].
+    apply in_app_or in Hin as [Hin | Hin].
+    { destruct (unknown_key_sdefs nm ws inst sdefs acp_arg ctor cg clif cli doc Hin Hd) as [e He]. congruence. }
+    apply in_app_or in Hin as [Hin | Hin].
+    { apply in_map_iff in Hin as [f [<- Hf]].
+      destruct (unknown_key_ctor nm ws inst sdefs acp_arg ctor cg clif cli f Hf Hmc Hd) as [e He]. congruence. }
+    destruct cg; [|destruct Hin].
+    apply in_map_iff in Hin as [f [<- Hf]].
+    destruct (unknown_key_clif nm ws inst sdefs acp_arg ctor clif cli f Hf Hmf (Hcg eq_refl) Hd) as [e He]. congruence.
+  - destruct (negb _); [reflexivity|].
+    cbn [verdict_allows]. apply forallb_forall. intros [q vo] Hin.
+    apply in_map_iff in Hin as [[q' d] [E Hin]]. cbn [fst snd] in E. injection E as <- <-.
+    unfold demanded_at. cbn [fst snd].
+    destruct (spec_leaf d (inst :: sdefs) _ _ cli q') as [v|] eqn:Es; [|reflexivity].
+    destruct (forest_leaf_paths_leaf_at ws q' d Hw Hin) as [o Hl].
+    rewrite forallb_forall in Hn. specialize (Hn _ Hin). cbn [fst] in Hn.
+    assert (Es' : spec_leaf d (inst :: sdefs) (map (rooted_gen nm ws) ctor)
+                            (map (rooted_gen nm ws) (if acp_of acp_arg ctor && cg then clif else [])) cli q' = Some v).
+    { destruct cg; [rewrite (Hcg eq_refl); exact Es | rewrite andb_false_r; exact Es]. }
+    rewrite (layers_partial _ _ _ _ _ _ _ _ _ _ _ _ _ _ H Hm Hl Hn Es'). apply pt_eqb_refl.
+Qed.
